@@ -13,7 +13,7 @@
    Wait oracle: result 0 only if the zeroing add started before the wait returned; non-zero
    only at/after the deadline; a wait started after zero does not sleep; every thread
    finishes (deadlock rule: all waiters released at zero).  */
-#include "common.h"
+#include "sc.h"
 
 #define MAXOPS 10
 #define MAXLOG 48
